@@ -894,18 +894,22 @@ enum UriElement {
 #[cfg_attr(any(doc, feature = "unstable"), qualifiers(pub))]
 #[cfg_attr(not(any(doc, feature = "unstable")), qualifiers(pub(crate)))]
 pub fn canonicalize_query_to_string(query_parameters: &HashMap<String, Vec<String>>) -> String {
-    let mut results = Vec::new();
+    let mut pairs: Vec<(&str, &str)> = Vec::new();
 
     for (key, values) in query_parameters.iter() {
         // Don't include the signature itself.
         if key != X_AMZ_SIGNATURE {
             for value in values.iter() {
-                results.push(format!("{}={}", key, value));
+                pairs.push((key.as_str(), value.as_str()));
             }
         }
     }
 
-    results.sort_unstable();
+    // Sort by (encoded) name, then by (encoded) value. Sorting the rendered `name=value` strings instead would
+    // misplace names that extend another name with a character sorting below '=' (e.g. `a-b` vs. `a`).
+    pairs.sort_unstable();
+
+    let results: Vec<String> = pairs.into_iter().map(|(key, value)| format!("{}={}", key, value)).collect();
     results.join("&")
 }
 
